@@ -42,3 +42,9 @@ META["C12"] = {
              "OpenDir probe at every callback boundary - and the reported outcome is checked against 'error, or complete result'."),
     "note": "Subjects are sampled by rapid; positions per subject are exhaustive up to the stated size limits.",
 }
+META["C03"] = {
+    "technique": "rapid PBT over rule files x trees; differential against an independent segment-wise glob matcher; Pack (plain, dereferenced, ignore off) and bundle builder legs",
+    "text": ("Generated rule files (patterns derived from the generated tree so that they match) are applied by Pack and by the bundle builder; "
+             "the set of shipped files must equal what an independently written matcher derives from each file's own archive path."),
+    "note": "lib/refignore (segment-wise, no regular expressions, no pruning) is the trusted reference.",
+}
